@@ -449,13 +449,23 @@ def r14_5(ck):
         partial = [c for c in A.calls_in(f.node, ('sorted', 'min', 'max'))
                    if data and data in A.names_in(c)]
         partial += [c for c in A.calls_in(f.node, 'sort')]
+        # ** unpacking of a data-derived mapping needs string keys and
+        # rejects duplicates
+        for c in A.calls_in(f.node):
+            for kw in c.keywords:
+                if kw.arg is None and data and data in A.names_in(kw.value):
+                    partial.append(c)
+        # element type coercion before conversion (astype) changes the data
+        for c in A.calls_in(f.node, ('astype', 'view')):
+            if data and data in A.names_in(c):
+                partial.append(c)
         ck.require(not partial, 'R14.5', f,
                    partial[0] if partial else f.node.name,
                    'serialize() is total on its type (no ordering of '
                    'arbitrary members)',
-                   '%s.serialize orders the members of the data (%s): sets '
-                   'or sequences with unorderable members raise instead of '
-                   'being serialised' % (ci.name, A.short(
-                       partial[0], 40) if partial else ''),
+                   '%s.serialize applies a partial or type-changing '
+                   'operation to the data (%s): legal values of its type '
+                   'raise or come out as something else' % (ci.name, A.short(
+                       partial[0], 50) if partial else ''),
                    partial[0] if partial else None)
     ck.floor('R14.5', m, 6, 'serialize methods')
